@@ -446,9 +446,17 @@ class _KExpr:
     def num(self, v):
         return "(VS %s)" % _num(v)
 
+    def test(self, e):
+        """a comparison `e1 < e2` used as an if-test -> bool"""
+        if isinstance(e, ast.Compare) and len(e.ops) == 1 and isinstance(e.ops[0], ast.Lt):
+            return "(Qc_ltb (as_scalar %s) (as_scalar %s))" % (self.expr(e.left), self.expr(e.comparators[0]))
+        self.bad(e, "test outside the grammar")
+
     def expr(self, e):
         if isinstance(e, ast.Name):
             return self.var(e.id)
+        if isinstance(e, ast.Attribute) and isinstance(e.value, ast.Name) and e.value.id == "self":
+            return self.var("self_" + e.attr)
         if isinstance(e, ast.Constant) and isinstance(e.value, (int, float)) and not isinstance(e.value, bool):
             return self.num(e.value)
         if isinstance(e, ast.UnaryOp) and isinstance(e.op, ast.USub):
@@ -458,6 +466,9 @@ class _KExpr:
                 if isinstance(e.right, ast.Name) and e.right.id == "alpha":
                     self.uses.add("pw")
                     return "(vpow pw %s)" % self.expr(e.left)
+                if isinstance(e.right, ast.Name) and e.right.id == "adaptive_smooth":
+                    self.uses.add("gpow")
+                    return "(vpow gpow %s)" % self.expr(e.left)
                 if isinstance(e.right, ast.Constant) and e.right.value == 2:
                     b = self.expr(e.left)
                     return "(vmul %s %s)" % (b, b)
@@ -496,6 +507,10 @@ class _KExpr:
                 return "(%s %s)" % ({"np.diff": "vdiff", "np.sum": "vsum", "np.mean": "vmean", "np.abs": "vabs", "abs": "vabs", "len": "vlen"}[name], self.expr(e.args[0]))
             if name in (".sum", ".min", ".max") and not e.args and not kw:
                 return "(%s %s)" % ({".sum": "vsum", ".min": "vmin", ".max": "vmax"}[name], self.expr(f.value))
+            if name == "int" and len(e.args) == 1 and not kw:
+                return "(vtrunc %s)" % self.expr(e.args[0])
+            if name in ("min", "max") and len(e.args) == 2 and not kw:
+                return "(%s %s %s)" % ("vmin2" if name == "min" else "vmax2", self.expr(e.args[0]), self.expr(e.args[1]))
             if name == "np.std" and len(e.args) == 1 and not kw:
                 self.uses.add("psqrt")
                 return "(VS (psqrt (vvar %s)))" % self.expr(e.args[0])
@@ -518,9 +533,9 @@ class _KExpr:
         self.bad(e, "expression outside the grammar")
 
 
-def _kdef(name, where, node):
+def _kdef(name, where, node, as_test=False):
     k = _KExpr(where)
-    body = k.expr(node)
+    body = k.test(node) if as_test else k.expr(node)
     params = ""
     if "pw" in k.uses:
         params += "(pw : Qc -> Qc) "
@@ -530,11 +545,13 @@ def _kdef(name, where, node):
         params += "(p10 : Qc -> Qc) "
     if "integ" in k.uses:
         params += "(integ : val -> val -> val) "
+    if "gpow" in k.uses:
+        params += "(gpow : Qc -> Qc) "
     if k.ifree:
         params += "(%s : Z) " % " ".join(k.ifree)
     if k.free:
         params += "(%s : val) " % " ".join(k.free)
-    return "Definition %s %s: val :=\n  %s.\n" % (name, params, body)
+    return "Definition %s %s: %s :=\n  %s.\n" % (name, params, "bool" if as_test else "val", body)
 
 
 def _stmt_sig(st):
@@ -547,6 +564,8 @@ def _stmt_sig(st):
             return "assign:(" + ",".join(getattr(x, "id", "?") for x in t.elts) + ")"
         if isinstance(t, ast.Subscript):
             return "assign:[]"
+        if isinstance(t, ast.Attribute) and isinstance(t.value, ast.Name):
+            return "assign:%s.%s" % (t.value.id, t.attr)
     if isinstance(st, ast.AugAssign):
         return "aug:" + ast.unparse(st.target)
     if isinstance(st, ast.Return):
@@ -557,15 +576,24 @@ def _stmt_sig(st):
         return "for(" + ";".join(_stmt_sig(s) for s in st.body) + ")"
     if isinstance(st, ast.Raise):
         return "raise"
+    if isinstance(st, ast.Expr) and isinstance(st.value, ast.Call):
+        return "call:" + ast.unparse(st.value.func)
     if isinstance(st, ast.Expr) and isinstance(st.value, ast.Constant):
         return "doc"
     return type(st).__name__
 
 
 def _find_fun(tree, name):
+    cls = None
+    if "." in name:
+        cls, name = name.split(".")
     for node in tree.body:
-        if isinstance(node, ast.FunctionDef) and node.name == name:
+        if cls is None and isinstance(node, ast.FunctionDef) and node.name == name:
             return node
+        if cls is not None and isinstance(node, ast.ClassDef) and node.name == cls:
+            for sub in node.body:
+                if isinstance(sub, ast.FunctionDef) and sub.name == name:
+                    return sub
     raise TranslateError("function %s not found" % name)
 
 
@@ -595,6 +623,26 @@ KERNELS = [
     ("process.py", "noise_gauss",
      "assign:a;if(if(assign:snr|);assign:sp;if(assign:std_n|assign:std_n)|assign:std_n);assign:noise;return",
      [("noise_gauss__sp", [1, "body", 1]), ("noise_gauss__std_n_db", [1, "body", 2, "body", 0]), ("noise_gauss__std_n_lin", [1, "body", 2, "orelse", 0])]),
+    ("rfa.py", "LinearFixedRFA.__init__", "call:super().__init__;if(assign:a|);assign:self.a;if(assign:self.a|);assign:self.a_l;assign:self.a_r",
+     [("linfixed_init__a_from_alpha", [1, "body", 0]), ("linfixed_init__a", [2]), ("linfixed_init__clamp_test", [3, "test"]),
+      ("linfixed_init__clamp_value", [3, "body", 0]), ("linfixed_init__a_l", [4]), ("linfixed_init__a_r", [5])]),
+    ("rfa.py", "ExpFixedRFA.__init__", "call:super().__init__;if(assign:a|);assign:self.a;if(assign:self.a|);assign:self.a_l;assign:self.a_r;assign:self.b;assign:self.exp",
+     [("expfixed_init__a_from_alpha", [1, "body", 0]), ("expfixed_init__a", [2]), ("expfixed_init__clamp_test", [3, "test"]),
+      ("expfixed_init__clamp_value", [3, "body", 0]), ("expfixed_init__a_l", [4]), ("expfixed_init__a_r", [5]), ("expfixed_init__b", [6])]),
+    ("rfa.py", "LinearAdaptiveRFA.__init__", "call:super().__init__;if(assign:a|);assign:self.a;if(assign:self.a|);assign:self.adaptive_smooth",
+     [("linadapt_init__a_from_alpha", [1, "body", 0]), ("linadapt_init__a", [2]), ("linadapt_init__clamp_test", [3, "test"]),
+      ("linadapt_init__clamp_value", [3, "body", 0])]),
+    ("rfa.py", "ExpAdaptiveRFA.__init__", "call:super().__init__;if(assign:a|);assign:self.a;if(assign:self.a|);assign:self.beta;assign:self.adaptive_smooth;assign:self.exp",
+     [("expadapt_init__a_from_alpha", [1, "body", 0]), ("expadapt_init__a", [2]), ("expadapt_init__clamp_test", [3, "test"]),
+      ("expadapt_init__clamp_value", [3, "body", 0])]),
+    ("rfa.py", "LinearAdaptiveRFA.get_adaptive_transition_points",
+     "assign:gammas;assign:a_ls;assign:a_rs;for(assign:nom;assign:denom;if(call:a_ls.append;call:a_rs.append;call:gammas.append|"
+     "if(call:a_ls.append;call:a_rs.append|if(call:a_ls.append;call:a_rs.append;call:gammas.append|"
+     "assign:gamma;assign:gamma;assign:a_l;assign:a_r;assign:a_l;assign:a_r;call:a_ls.append;call:a_rs.append;call:gammas.append))));"
+     "call:a_ls.extend;call:a_rs.extend;call:gammas.extend;return",
+     [("adaptive__gamma", [3, "body", 2, "orelse", 0, "orelse", 0, "orelse", 0]), ("adaptive__gamma_smoothed", [3, "body", 2, "orelse", 0, "orelse", 0, "orelse", 1]),
+      ("adaptive__a_l", [3, "body", 2, "orelse", 0, "orelse", 0, "orelse", 2]), ("adaptive__a_r", [3, "body", 2, "orelse", 0, "orelse", 0, "orelse", 3]),
+      ("adaptive__a_l_clipped", [3, "body", 2, "orelse", 0, "orelse", 0, "orelse", 4]), ("adaptive__a_r_clipped", [3, "body", 2, "orelse", 0, "orelse", 0, "orelse", 5])]),
     ("match.py", "_integral_matching_stretch",
      "assign:y;if(assign:x|assign:x);if(raise|);assign:current_integral;assign:delta_p;assign:x_n2;assign:delta_x;assign:delta_xi;"
      "if(assign:w|assign:w);assign:y_hat;if(assign:y_hat|if(assign:y_hat|));assign:res_y;return",
@@ -625,9 +673,14 @@ def gen_kernels():
             for step in path:
                 if isinstance(step, int):
                     node = cur[step]
+                elif step == "test":
+                    node = node.test
                 else:
                     cur = getattr(node, step)
-            if isinstance(node, (ast.Assign, ast.Return)):
+            as_test = False
+            if path and path[-1] == "test":
+                val, as_test = node, True
+            elif isinstance(node, (ast.Assign, ast.Return)):
                 val = node.value
             else:
                 raise TranslateError("%s:%s: path %s does not end at an assignment/return" % (fname, fn, path))
@@ -635,7 +688,60 @@ def gen_kernels():
                     and getattr(val.func.value.func, "id", None) == "integral":
                 pass
             out.append("(* %s:%d  %s *)" % (fname, node.lineno, ast.unparse(node).replace("*)", "* )")[:150]))
-            out.append(_kdef(dname, fname, val))
+            out.append(_kdef(dname, fname, val, as_test))
+    return "\n".join(out)
+
+
+# ==========================================================================================
+# weaver.py -> Gen/WeaverFootprint.v : which fields of the object each method assigns (in source order)
+# ==========================================================================================
+_FIELDS = {"x": "FX", "y": "FY", "original_x": "FOX", "original_y": "FOY", "reference_x": "FRX", "reference_y": "FRY",
+           "x_scale": "FXS", "y_scale": "FYS"}
+
+
+@target("WeaverFootprint")
+def gen_weaver_footprint():
+    tree = ast.parse(_src("weaver.py"))
+    cls = None
+    for node in tree.body:
+        if isinstance(node, ast.ClassDef) and node.name == "Weaver":
+            cls = node
+    if cls is None:
+        raise TranslateError("weaver.py: class Weaver not found")
+    rows = []
+    for fn in cls.body:
+        if not isinstance(fn, ast.FunctionDef):
+            continue
+        static = any(isinstance(d, ast.Name) and d.id == "staticmethod" for d in fn.decorator_list)
+        writes = []
+        for st in ast.walk(fn):
+            targets = []
+            if isinstance(st, ast.Assign):
+                targets = st.targets
+            elif isinstance(st, (ast.AugAssign, ast.AnnAssign)):
+                targets = [st.target]
+            for t in targets:
+                elts = t.elts if isinstance(t, ast.Tuple) else [t]
+                for e in elts:
+                    base = e
+                    while isinstance(base, ast.Subscript):      # self.y[i] = ... is a write to y as well
+                        base = base.value
+                    if isinstance(base, ast.Attribute) and isinstance(base.value, ast.Name) and base.value.id == "self":
+                        if base.attr not in _FIELDS:
+                            raise TranslateError("weaver.py:%d: assignment to unknown attribute self.%s in %s" % (st.lineno, base.attr, fn.name))
+                        writes.append((st.lineno, e.col_offset, _FIELDS[base.attr]))
+            # in-place method calls on fields (self.y.sort(), np.add(..., out=self.y)) are outside the grammar
+            if isinstance(st, ast.Call):
+                for k in st.keywords:
+                    if k.arg == "out":
+                        raise TranslateError("weaver.py:%d: out= argument in %s" % (st.lineno, fn.name))
+        writes.sort()
+        rows.append("  (%s, [%s])" % (_cstr(fn.name), "; ".join(w[2] for w in writes)))
+    out = ["(** GENERATED by tools/translate.py from class Weaver in /repo/src/traffic_weaver/weaver.py — do not edit.",
+           "    For every method: the fields of the object it assigns, in source order. *)",
+           "From Coq Require Import String List.", "Import ListNotations.", "Open Scope string_scope.", "",
+           "Inductive field := FX | FY | FOX | FOY | FRX | FRY | FXS | FYS.", "",
+           "Definition method_writes : list (string * list field) := [\n" + ";\n".join(rows) + "\n].\n"]
     return "\n".join(out)
 
 
